@@ -445,6 +445,15 @@ func (sc *SpecCtx) resolveType(name string) types.Type {
 		ptr = true
 		name = name[1:]
 	}
+	if strings.Contains(name, ".") && !strings.Contains(name, "[") {
+		// a type of another package (reflect.Type), as it occurs in the code
+		if t := e.typeByString(name); t != nil {
+			if ptr {
+				return types.NewPointer(t)
+			}
+			return t
+		}
+	}
 	if strings.Contains(name, "[") {
 		// instantiated generic type as it appears in the function under verification (e.g. TraitEntryOf[V])
 		if t := e.typeByString(name); t != nil {
